@@ -497,6 +497,12 @@ def check_meek_iteration_helper(ctx, f, loop):
     assigns = {n for n in ccfg.nodes if n.kind == 'stmt' and isinstance(n.ast, ast.Assign)
                and len(n.ast.targets) == 1 and isinstance(n.ast.targets[0], ast.Name) and n.ast.targets[0].id == pl}
     good = {n for n in assigns if ctx.canon(n.ast.value, callee) == 'E.surplus'}
+    # a continuing return that hands back E.surplus itself as the new `last` needs no assignment before it
+    direct = {n for n in ccfg.nodes if n.kind == 'stmt' and isinstance(n.ast, ast.Return) and _ret_value(n.ast, 1) is not None
+              and ctx.canon(_ret_value(n.ast, 1), callee) == 'E.surplus'}
+
+    def returns_iterate_stale(node, facts):
+        return node not in direct and returns_iterate(node, facts)
     p2 = None
     restore = []
     for s, lab in t2.succ:
@@ -504,16 +510,16 @@ def check_meek_iteration_helper(ctx, f, loop):
             continue
         # facts at t2-False: status still K (conservative: re-run from entry to collect facts is overkill; K assumed)
         lits2 = literals(catoms.formula(t2.ast.test), False)
-        p2 = p2 or _search_from(ccfg, s, dict(facts0), catoms, on_node, returns_iterate, good)
-        between = ccfg.reach([s], avoid=good, include_start=True)
+        p2 = p2 or _search_from(ccfg, s, dict(facts0), catoms, on_node, returns_iterate_stale, good)
+        between = ccfg.reach([s], avoid=good | direct, include_start=True)
         restore += [n for n in between if _surplus_store(ctx, callee, n)]
-    ok = p1 is None and p2 is None and assigns == good and bool(good) and not restore
+    ok = p1 is None and p2 is None and assigns == good and bool(good or direct) and not restore
     why = []
     if p1 is not None:
         why.append('%s() can return %r without the stable-state test failing: %s' % (callee.name, K, describe(p1)))
     if p2 is not None:
         why.append('%s() can return %r without `%s = E.surplus`: %s' % (callee.name, K, pl, describe(p2)))
-    if assigns != good or not good:
+    if assigns != good or not (good or direct):
         why.append('%s is assigned something other than E.surplus' % pl)
     if restore:
         why.append('E.surplus is re-assigned between the test and `%s = E.surplus`' % pl)
